@@ -1,2 +1,315 @@
-(* C19 - placeholder until the theorems are proved *)
-Require Import WD.Base.Prelude WD.Model.Pipeline.
+(* C19 - Event paths keep the caller's path type and the entry's exact name, all backends.
+   Only statements; every proof is `exact <lemma>`.
+
+   Vocabulary (coq/Model/PathTypes.v):
+     rooted root p  :=  exists rel, all names of rel valid /\ p = root ++ "/n1/n2/..."      (root itself: rel = [])
+     below  root p  :=  rooted with at least one name
+     ev_ok root e   :=  ev_src e and ev_dest e are each empty or rooted
+     kraw_ok e      :=  the raw record's name is a valid name, or it is empty and the mask is one queue_events never
+                        reports a parent directory for (IN_ATTRIB|IN_ISDIR, IN_DELETE_SELF, IN_IGNORED, ...)
+     fs_names_ok t / op_names_ok o  :=  valid_name (basename p) for every entry path / operation path
+     path_inv root r :=  every value of _path_for_wd, every key of _wd_for_path, every source in _moved_from_events
+                         is rooted
+   valid_name: non-empty, no '/', no NUL - any other byte, decodable or not.  The root is any non-empty byte string
+   that does not end in '/'. *)
+Require Import WD.Base.Prelude WD.Base.BStr WD.Model.SubEvents WD.Model.Emitter WD.Model.Fs WD.Model.Reader
+               WD.Model.PathTypes WD.Proofs.PathProofs WD.Model.Pipeline.
+
+(* ================================================================== NAME law *)
+(* ---- path algebra: the parent of root/rel/n is root/rel *)
+Theorem C19_dirname : forall root, root <> [] -> last_is_sep root = false ->
+  forall rel n, forallb valid_name rel = true -> valid_name n = true ->
+  dirname (root ++ relsuffix (rel ++ [n])) = root ++ relsuffix rel.
+Proof. exact dirname_rooted. Qed.
+Print Assumptions C19_dirname.
+
+(* ---- the kernel: the records of one operation carry the basename of an operation path or no name *)
+Theorem C19_kernel_names : forall k t o,
+  op_names_ok o -> Forall kraw_ok (k_queue k) -> Forall kraw_ok (k_queue (kernel_op k t o)).
+Proof. exact kernel_op_ok. Qed.
+Print Assumptions C19_kernel_names.
+
+Theorem C19_fs_names : forall w o w',
+  fs_names_ok (w_fs w) -> op_names_ok o -> apply_op w o = Some w' -> fs_names_ok (w_fs w').
+Proof. exact apply_op_names. Qed.
+Print Assumptions C19_fs_names.
+
+(* ---- the reader: construction establishes the invariant, every batch (arbitrary records, arbitrary cuts) keeps it,
+   and every InotifyEvent it outputs is about an entry below the root or about a watched directory itself *)
+Theorem C19_reader_construct : forall C, c_root C <> [] -> last_is_sep (c_root C) = false ->
+  forall k t r' k', fs_names_ok t -> construct C k t = Some (r', k') -> path_inv (c_root C) r'.
+Proof. exact construct_inv. Qed.
+Print Assumptions C19_reader_construct.
+
+Theorem C19_reader_inv : forall C, c_root C <> [] -> last_is_sep (c_root C) = false ->
+  forall t b r k acc r' k' acc',
+  fs_names_ok t -> path_inv (c_root C) r -> Forall (raw_ok (c_root C)) acc -> Forall kraw_ok b ->
+  read_batch C t (r, k, acc) b = Done (r', k', acc') ->
+  path_inv (c_root C) r' /\ Forall (raw_ok (c_root C)) acc'.
+Proof. exact read_batch_inv. Qed.
+Print Assumptions C19_reader_inv.
+
+Theorem C19_raw_paths : forall C, c_root C <> [] -> last_is_sep (c_root C) = false ->
+  forall t b r k r' k' out,
+  fs_names_ok t -> path_inv (c_root C) r -> Forall kraw_ok b ->
+  read_batch C t (r, k, []) b = Done (r', k', out) ->
+  forall x, In x out -> rooted (c_root C) (r_path x).
+Proof. exact raw_paths. Qed.
+Print Assumptions C19_raw_paths.
+
+(* ---- the emitter: for an item whose raw paths are rooted and content trees with valid names, every path of every
+   event of one queue_events() call - real, parent-directory and synthetic alike - is empty or rooted.  The single
+   exception is DirModifiedEvent(dirname(root)) - the root's own parent, outside the watched tree - which arises only
+   from an item about the root itself ([r_path = root]) in a branch that reports the parent directory. *)
+Theorem C19_event_paths : forall root, root <> [] -> last_is_sep root = false ->
+  forall full rec wp content it,
+  (forall r, In r (item_raws it) -> rooted root (r_path r)) ->
+  (forall p, wf_tree (content p) = true) ->
+  forall e, In e (fst (emit full rec wp content it)) ->
+    ev_ok root e \/ (e = parent_modified root /\ exists r, In r (item_raws it) /\ r_path r = root).
+Proof. exact emit_paths. Qed.
+Print Assumptions C19_event_paths.
+
+Theorem C19_event_paths_below : forall root, root <> [] -> last_is_sep root = false ->
+  forall full rec wp content it,
+  (forall r, In r (item_raws it) -> below root (r_path r)) ->
+  (forall p, wf_tree (content p) = true) ->
+  forall e, In e (fst (emit full rec wp content it)) -> ev_ok root e.
+Proof. exact emit_paths_below. Qed.
+Print Assumptions C19_event_paths_below.
+
+(* an item as the pipeline delivers it - a single record the reader produced ([raw_ok]: below the root, or about a
+   watched directory itself with a mask that never reports the parent), or the two halves of a rename, both below the
+   root: no exception at all *)
+Theorem C19_event_paths_strict : forall root, root <> [] -> last_is_sep root = false ->
+  forall full rec wp content it,
+  match it with
+  | Single x => raw_ok root x
+  | Pair f t => below root (r_path f) /\ below root (r_path t)
+  end ->
+  (forall p, wf_tree (content p) = true) ->
+  forall e, In e (fst (emit full rec wp content it)) -> ev_ok root e.
+Proof. exact emit_paths_strict. Qed.
+Print Assumptions C19_event_paths_strict.
+
+(* ---- the pipeline: file system + kernel + reader + buffer + emitter, any action list (operations with valid
+   basenames, arbitrary read cuts, ticks, emits), any emitter flavour / filter / recursive flag / fault plan, any
+   initial tree with valid basenames: the reader invariant holds in every reachable state, every InotifyEvent ever
+   produced has a rooted path, and EVERY path of EVERY delivered event is empty or rooted (the root's own parent is
+   never reported: the kernel sends no name-less record whose mask reports a parent, and the buffer pairs only
+   IN_MOVED_FROM / IN_MOVED_TO records, which always carry names).  No hypothesis on the root is needed here: the
+   model's file system is keyed by the root's spelling and its entries have valid basenames, so construction succeeds
+   only on a non-empty root that does not end in '/' (C19_pipeline_root). *)
+Theorem C19_pipeline_root : forall P w s,
+  fs_names_ok (w_fs w) -> pinit P w = Some s ->
+  c_root (pc_reader P) <> [] /\ last_is_sep (c_root (pc_reader P)) = false.
+Proof. exact pinit_root_normal. Qed.
+Print Assumptions C19_pipeline_root.
+
+Theorem C19_pipeline_paths : forall P w s0 h s obs,
+  fs_names_ok (w_fs w) -> (forall o, In (AOp o) h -> op_names_ok o) ->
+  pinit P w = Some s0 -> prun P s0 h [] = Done (s, obs) ->
+  path_inv (c_root (pc_reader P)) (p_r s) /\
+  (forall i x, In (i, x) (p_tbl s) -> rooted (c_root (pc_reader P)) (r_path x)) /\
+  (forall e, In e (p_out s) -> ev_ok (c_root (pc_reader P)) e).
+Proof. exact pipeline_paths_any. Qed.
+Print Assumptions C19_pipeline_paths.
+
+(* ================================================================== TYPE law *)
+(* the typed transcription of InotifyEmitter.queue_events is Emitter.emit once the tags are erased *)
+Theorem C19_type_erase : forall full rec wp content it,
+  erase (typed_emit full rec wp content it) = emit full rec (pv_bytes wp) content it.
+Proof. exact typed_emit_erase. Qed.
+Print Assumptions C19_type_erase.
+
+(* every non-empty path of every event carries the watch path's tag *)
+Theorem C19_type : forall full rec wp content it e,
+  In e (fst (typed_emit full rec wp content it)) ->
+  (pv_bytes (te_src e) <> [] -> pv_tag (te_src e) = pv_tag wp) /\
+  (pv_bytes (te_dest e) <> [] -> pv_tag (te_dest e) = pv_tag wp).
+Proof. exact typed_emit_tags. Qed.
+Print Assumptions C19_type.
+
+(* bytes stay bytes; str and pathlib.Path give str *)
+Theorem C19_type_kinds : forall full rec k b content it e,
+  In e (fst (typed_emit full rec (tagged (watch_tag k) b) content it)) ->
+  tag_ok (match k with WBytes => TBytes | _ => TStr end) (te_src e) /\
+  tag_ok (match k with WBytes => TBytes | _ => TStr end) (te_dest e).
+Proof. exact typed_emit_kind. Qed.
+Print Assumptions C19_type_kinds.
+
+(* ---- polling: os.path.join(root, entry.name) along the relative names has the watch's tag *)
+Theorem C19_polling_type : forall wp rel, pv_tag (pjoins wp rel) = pv_tag wp.
+Proof. exact pjoins_tag. Qed.
+Print Assumptions C19_polling_type.
+
+(* ---- agreement: for the same entry (same relative names) the inotify path value (reader joins on
+   os.fsencode(root), decoded by the emitter) and the polling path value (joins on the root as given) are EQUAL -
+   for every spelling of the root, trailing slash or not *)
+Theorem C19_agree : forall wp rel, inotify_path wp rel = pjoins wp rel.
+Proof. exact inotify_polling_agree. Qed.
+Print Assumptions C19_agree.
+
+(* with a normalised root both are root ++ "/n1/n2/..." with the watch's tag *)
+Theorem C19_agree_rooted : forall wp rel,
+  pv_bytes wp <> [] -> last_is_sep (pv_bytes wp) = false -> forallb valid_name rel = true ->
+  inotify_path wp rel = tagged (pv_tag wp) (pv_bytes wp ++ relsuffix rel) /\
+  pjoins wp rel = tagged (pv_tag wp) (pv_bytes wp ++ relsuffix rel).
+Proof. exact agree_rooted. Qed.
+Print Assumptions C19_agree_rooted.
+
+(* any path VALUE of any event of the typed emitter whose bytes name the entry [rel] is the polling path value of
+   that entry (type and bytes) *)
+Theorem C19_event_agree : forall full rec wp content it e v rel,
+  In e (fst (typed_emit full rec wp content it)) -> (v = te_src e \/ v = te_dest e) ->
+  pv_bytes wp <> [] -> last_is_sep (pv_bytes wp) = false -> forallb valid_name rel = true ->
+  pv_bytes v = pv_bytes wp ++ relsuffix rel ->
+  v = pjoins wp rel.
+Proof. exact event_path_agree. Qed.
+Print Assumptions C19_event_agree.
+
+(* ---- name and type together: every non-empty path VALUE of every event of one queue_events() call on an item as the
+   pipeline delivers it is the watch path followed by the valid relative names of an entry, with the watch's type -
+   which is exactly the value the polling snapshot has for that entry *)
+Theorem C19_event_value : forall full rec wp content it,
+  pv_bytes wp <> [] -> last_is_sep (pv_bytes wp) = false ->
+  match it with
+  | Single x => raw_ok (pv_bytes wp) x
+  | Pair f t => below (pv_bytes wp) (r_path f) /\ below (pv_bytes wp) (r_path t)
+  end ->
+  (forall p, wf_tree (content p) = true) ->
+  forall e v, In e (fst (typed_emit full rec wp content it)) -> (v = te_src e \/ v = te_dest e) ->
+  pv_bytes v <> [] ->
+  exists rel, forallb valid_name rel = true /\
+              v = tagged (pv_tag wp) (pv_bytes wp ++ relsuffix rel) /\ v = pjoins wp rel.
+Proof. exact typed_emit_value. Qed.
+Print Assumptions C19_event_value.
+
+(* ================================================================== any spelling of the root *)
+(* A root spelled with trailing '/' (or "/" itself): paths are [joins root rel] (= os.path.join along the names), not
+   root ++ "/n1/...".  The emitter law carries over for every non-empty root: each path of each event is empty, or
+   the root joined with valid names, or - for the parent of a top-level entry - the root with its trailing separators
+   stripped ([norm_root root = dirname (join root n)]; equal to the root when it has no trailing '/'). *)
+Theorem C19_event_paths_any_root : forall root, root <> [] ->
+  forall full rec wp content it,
+  match it with
+  | Single x => jbelow root (r_path x) \/ (jrooted root (r_path x) /\ noparent (r_mask x) = true)
+  | Pair f t => jbelow root (r_path f) /\ jbelow root (r_path t)
+  end ->
+  (forall p, wf_tree (content p) = true) ->
+  forall e, In e (fst (emit full rec wp content it)) ->
+    jpath_ok root (ev_src e) /\ jpath_ok root (ev_dest e).
+Proof. exact emit_paths_any_root. Qed.
+Print Assumptions C19_event_paths_any_root.
+
+Theorem C19_dirname_top : forall root n, root <> [] -> valid_name n = true ->
+  dirname (join root n) = norm_root root.
+Proof. exact dirname_top. Qed.
+Print Assumptions C19_dirname_top.
+
+(* ================================================================== stated, not proved *)
+(* The READER invariant for a root spelled with trailing separators.  (The pipeline model cannot be constructed on
+   such a root - its file system is keyed by the normalised spelling, C19_pipeline_root - so this is a statement
+   about read_batch alone.)  Proved above for roots that do not end in '/' (C19_reader_inv), absolute or relative;
+   the emitter half is proved for every root (C19_event_paths_any_root); the TYPE law and the inotify / polling
+   agreement hold for every root (C19_type, C19_agree); the oracle runs the trailing-slash spelling on the real
+   observers.  Not proved: the re-key step (replace_first on keys under a moved directory) needs a separate
+   case analysis when the root itself ends in '/'. *)
+Definition C19_reader_any_root_full : Prop :=
+  forall C, c_root C <> [] ->
+  forall t b r k acc r' k' acc',
+  fs_names_ok t -> jpath_inv (c_root C) r -> Forall (jraw_ok (c_root C)) acc -> Forall kraw_ok b ->
+  read_batch C t (r, k, acc) b = Done (r', k', acc') ->
+  jpath_inv (c_root C) r' /\ Forall (jraw_ok (c_root C)) acc'.
+(* the proved part *)
+Theorem C19_reader_any_root_partial :
+  forall C, c_root C <> [] -> last_is_sep (c_root C) = false ->
+  forall t b r k acc r' k' acc',
+  fs_names_ok t -> path_inv (c_root C) r -> Forall (raw_ok (c_root C)) acc -> Forall kraw_ok b ->
+  read_batch C t (r, k, acc) b = Done (r', k', acc') ->
+  path_inv (c_root C) r' /\ Forall (raw_ok (c_root C)) acc'.
+Proof. exact read_batch_inv. Qed.
+Print Assumptions C19_reader_any_root_partial.
+
+(* ================================================================== non-vacuity *)
+Example C19_dirname_nonvacuous :
+  forallb valid_name [eacute_; xff_] = true /\
+  dirname (rt_ ++ relsuffix ([eacute_] ++ [xff_])) = [47; 119; 47; 195; 169]%N.
+Proof. vm_compute. split; reflexivity. Qed.
+
+(* a directory rename with an undecodable descendant: moved, two parents, one synthetic sub-event *)
+Example C19_event_paths_nonvacuous :
+  let f := {| r_wd := 1; r_mask := N.lor IN_MOVED_FROM IN_ISDIR; r_cookie := 1; r_name := eacute_;
+              r_path := rt_ ++ relsuffix [eacute_] |} in
+  let t := {| r_wd := 1; r_mask := N.lor IN_MOVED_TO IN_ISDIR; r_cookie := 1; r_name := zhong_;
+              r_path := rt_ ++ relsuffix [zhong_] |} in
+  let content := fun _ : bytes => Node [] [xff_] in
+  (forall r, In r (item_raws (Pair f t)) -> below rt_ (r_path r)) /\
+  (forall p, wf_tree (content p) = true) /\
+  map (fun e => (ev_src e, ev_dest e)) (fst (emit false true rt_ content (Pair f t))) =
+    [([47;119;47;195;169], [47;119;47;228;184;173]);
+     ([47;119], []); ([47;119], []);
+     ([47;119;47;195;169;47;255], [47;119;47;228;184;173;47;255])]%N.
+Proof.
+  cbv zeta. split; [|split; [reflexivity | vm_compute; reflexivity]].
+  intros r [<-|[<-|[]]]; cbn [r_path].
+  - exists [], eacute_. repeat split.
+  - exists [], zhong_. repeat split.
+Qed.
+
+(* mkdir "é"; touch "é/\xff"; rename "é" -> "中", through kernel, reader, buffer and emitter: 8 events, the last one
+   the synthetic FileMovedEvent("/w/é/\xff", "/w/中/\xff") *)
+Example C19_pipeline_nonvacuous :
+  fs_names_ok (w_fs w_) /\ (forall o, In (AOp o) h_ -> op_names_ok o) /\
+  exists s0 s obs, pinit P_ w_ = Some s0 /\ prun P_ s0 h_ [] = Done (s, obs) /\
+    length (p_out s) = 8 /\
+    last (p_out s) (mk FileCreated [] []) =
+      {| ev_cls := FileMoved; ev_src := [47;119;47;195;169;47;255]%N; ev_dest := [47;119;47;228;184;173;47;255]%N;
+         ev_synth := true |}.
+Proof.
+  split; [|split].
+  - intros e [<-|[]]. reflexivity.
+  - intros o Hin. unfold h_ in Hin. cbn [In] in Hin.
+    repeat match type of Hin with
+           | _ \/ _ => destruct Hin as [Hin|Hin]
+           | False => contradiction
+           | _ = _ => first [discriminate Hin | inversion Hin; subst; vm_compute; repeat split]
+           end.
+  - eexists. eexists. eexists. split; [vm_compute; reflexivity|]. split; [vm_compute; reflexivity|].
+    vm_compute. split; reflexivity.
+Qed.
+
+(* the same rename through the typed emitter: str watch -> every non-empty path is TStr, bytes watch -> TBytes *)
+Example C19_type_nonvacuous :
+  let f := {| r_wd := 1; r_mask := N.lor IN_MOVED_FROM IN_ISDIR; r_cookie := 1; r_name := eacute_;
+              r_path := rt_ ++ relsuffix [eacute_] |} in
+  let t := {| r_wd := 1; r_mask := N.lor IN_MOVED_TO IN_ISDIR; r_cookie := 1; r_name := zhong_;
+              r_path := rt_ ++ relsuffix [zhong_] |} in
+  let content := fun _ : bytes => Node [] [xff_] in
+  map (fun e => (pv_tag (te_src e), pv_tag (te_dest e)))
+      (fst (typed_emit false true (tagged (watch_tag WBytes) rt_) content (Pair f t))) =
+    [(TBytes, TBytes); (TBytes, TStr); (TBytes, TStr); (TBytes, TBytes)] /\
+  map (fun e => (pv_tag (te_src e), pv_tag (te_dest e)))
+      (fst (typed_emit false true (tagged (watch_tag WPath) rt_) content (Pair f t))) =
+    [(TStr, TStr); (TStr, TStr); (TStr, TStr); (TStr, TStr)] /\
+  te_dest (last (fst (typed_emit false true (tagged (watch_tag WBytes) rt_) content (Pair f t))) (tmk FileCreated pempty pempty))
+    = tagged TBytes [47;119;47;228;184;173;47;255]%N.
+Proof. vm_compute. repeat split. Qed.
+
+(* a root spelled "/w/": create of b"\xff" at the top level - the event names "/w/\xff" (= join), its parent is "/w" *)
+Example C19_any_root_nonvacuous :
+  let x := {| r_wd := 1; r_mask := IN_CREATE; r_cookie := 0; r_name := xff_; r_path := join (rt_ ++ [sep]) xff_ |} in
+  jbelow (rt_ ++ [sep]) (r_path x) /\ norm_root (rt_ ++ [sep]) = rt_ /\
+  map (fun e => (ev_src e, ev_dest e)) (fst (emit false true (rt_ ++ [sep]) (fun _ => Node [] []) (Single x))) =
+    [([47;119;47;255], []); ([47;119], [])]%N.
+Proof.
+  cbv zeta. split; [|split; vm_compute; reflexivity].
+  exists xff_, []. repeat split.
+Qed.
+
+Example C19_agree_nonvacuous :
+  inotify_path (tagged TStr rt_) [zhong_; xff_] = tagged TStr [47;119;47;228;184;173;47;255]%N /\
+  pjoins (tagged TStr rt_) [zhong_; xff_] = tagged TStr [47;119;47;228;184;173;47;255]%N /\
+  inotify_path (tagged TBytes (rt_ ++ [sep])) [xff_] = pjoins (tagged TBytes (rt_ ++ [sep])) [xff_] /\
+  pv_bytes (pjoins (tagged TBytes (rt_ ++ [sep])) [xff_]) = [47;119;47;255]%N.
+Proof. vm_compute. repeat split. Qed.
